@@ -15,11 +15,14 @@ RAC = {
     'markdown_tokens': dict(crate=CORE, attach=S + 'parsers/markdown.rs', file='markdown.rs', test='rac_markdown_tokens', function='Markdown::parse'),
     'comment_frontends': dict(crate='harper-comments', attach='harper-comments/src/comment_parser.rs', file='comments.rs', test='rac_comment_frontends', function='CommentParser (tree-sitter mask + JSDoc/JavaDoc/Go/Unit comment parsers)'),
     'number_suffix_rule': dict(crate=CORE, attach=S + 'linting/correct_number_suffix.rs', file='number_suffix.rs', test='rac_number_suffix_rule', function='CorrectNumberSuffix::lint + condense_number_suffixes + lex_number'),
-    'lint_group_cache': dict(crate=CORE, attach=S + 'linting/lint_group.rs', file='lint_group.rs', test='rac_lint_group_cache', function='LintGroup::lint (chunk cache rebase)'),
+    'lint_group_cache': dict(crate=CORE, attach=S + 'linting/lint_group.rs', file='lint_group.rs', test='rac_lint_group_cache', needs_corpus=True, function='LintGroup::lint (chunk cache rebase)'),
     'lsp_glue': dict(crate='harper-ls', attach='harper-ls/src/document_state.rs', file='document_state.rs', test='rac_lsp_glue', target=['--bin', 'harper-ls'], function='DocumentState::generate_diagnostics / generate_code_actions / lint_to_code_actions'),
     'fuzzy_backends': dict(crate=CORE, attach=S + 'spell/fst_dictionary.rs', file='fuzzy.rs', test='rac_fuzzy_backends', function='FstDictionary / MutableDictionary (exact queries, fuzzy_match)'),
     'condense_indices': dict(crate=CORE, attach=S + 'document.rs', file='document.rs', test='rac_condense_indices', function='Document::condense_indices'),
     'edit_distance_long': dict(crate=CORE, attach=S + 'edit_distance.rs', file='edit_distance.rs', test='rac_edit_distance_long', function='edit_distance (beyond the proved bound)'),
+    'rule_spans': dict(crate=CORE, attach=S + 'linting/lint_group.rs', file='lint_group.rs', test='rac_rule_spans', needs_corpus=True, function='every curated rule (lint spans and suggestions)'),
+    'lhs_frontend': dict(crate='harper-literate-haskell', attach='harper-literate-haskell/src/lib.rs', file='lhs.rs', test='rac_lhs_frontend', function='LiterateHaskellParser / LiterateHaskellMasker'),
+    'currency_conflict_free': dict(crate=CORE, attach=S + 'linting/currency_placement.rs', file='currency.rs', test='rac_currency_conflict_free', function='CurrencyPlacement::lint (caller of remove_overlaps)'),
 }
 # Verus piece name -> runtime contract checks that exercise the same clause on the real code
 RAC_FOR_FUNCTION = {
